@@ -116,7 +116,7 @@ var detailMarkers = map[string]string{
 	"*withstack.withStack":         "stack trace",
 	"*assert.withAssertionFailure": "assertion failure",
 	"*exthttp.withHTTPCode":        "http code: 404",
-	"*extgrpc.withGrpcCode":        "gRPC code: PermissionDenied",
+	"*extgrpc.withGrpcCode":        "gRPC code: ",
 	"*telemetrykeys.withTelemetry": "keys: [",
 	"*contexttags.withContext":     "tags: [",
 	"*domains.withDomain":          "error domain: ",
